@@ -6,8 +6,8 @@ from mc import driver as D
 
 PROP = 'C03'
 RULE = ('ALL labelled dependency digraphs on n cells (n <= 3 quick, n = 4 thorough, n = 5 with out-degree <= 2 sampled by a '
-        'fixed stride in thorough) laid out over two sheets (S!A1,S!B1,S!C1,T!A1,T!B1), every edge realised in each of four '
-        'forms (direct reference, one-cell range inside SUM, reference inside IF, whole column inside SUM), formula texts built so that cells on '
+        'fixed stride in thorough) laid out over two sheets (S!A1,S!B1,S!C1,T!A1,T!B1), every edge realised in each of six '
+        'forms (direct reference, one-cell range inside SUM, reference inside IF, whole column inside SUM, column argument of a four-argument INDEX, first argument of IFERROR), formula texts built so that cells on '
         'different sheets with the same successors have byte-identical texts; acyclic: every node as entry point (numeric, '
         'A1-style and a Cell object already used with an Executor): entry class defines every reachable cell and gives the '
         'whole-file value = reference value; cyclic: whole-file translation and every entry reaching the cycle must raise the '
@@ -17,7 +17,7 @@ ASSUMPTIONS = ['reference value: leaf = distinct prime, inner cell = sum over su
 CELLS = [('S', 'A', 1), ('S', 'B', 1), ('S', 'C', 1), ('T', 'A', 1), ('T', 'B', 1)]
 TIDX = {'S': 0, 'T': 1}
 PRIMES = [3, 5, 7, 11, 13]
-FORMS = ['direct', 'sumrange', 'inif', 'wholecol']
+FORMS = ['direct', 'sumrange', 'inif', 'wholecol', 'index4', 'iferror']
 
 
 def real_title(name, form):
@@ -33,6 +33,12 @@ def ref_text(src, dst, form):
         return pre + a
     if form == 'sumrange':
         return f'SUM({pre}{a}:{a})'
+    if form == 'index4':
+        # the successor is reached through the column argument of the four-argument INDEX only; the value of the edge is
+        # the constant 1 of the filler cell E9
+        return f'INDEX((E9:E9,E9:E9),1,1+0*{pre}{a},1)'
+    if form == 'iferror':
+        return f'IFERROR({pre}{a},0)'
     if form == 'wholecol':
         # every cell of the layout sits in row 1, the last (and only) used row of its sheet, alone in its column
         return f'SUM({pre}{dst[1]}:{dst[1]})'
@@ -62,8 +68,8 @@ def reach(n, edges, i):
     return seen
 
 
-def ref_values(n, edges):
-    """None for cells on/behind a cycle"""
+def ref_values(n, edges, unit=False):
+    """None for cells on/behind a cycle; unit: every edge contributes 1 (times its weight) instead of the successor's value"""
     val = {}
     state = {}
 
@@ -83,7 +89,7 @@ def ref_values(n, edges):
                 if x is None:
                     v = None
                     break
-                v += x * (k + 2)
+                v += (1 if unit else x) * (k + 2)
         state[i] = 2
         val[i] = v
         return v
@@ -208,7 +214,7 @@ def run_graphs(cases, stats):
         sheets['T'].setdefault(filler, 1)
         spec = [('S', sheets['S']), (real_title('T', form), sheets['T'])]
         bio = D.build_xlsx(spec)
-        refv = ref_values(n, edges)
+        refv = ref_values(n, edges, unit=(form == 'index4'))
         cyclic = any(v is None for v in refv)
         if edges:
             stats['nontrivial'] += 1
